@@ -19,6 +19,9 @@ TrTailOk == Cfg.tailok
 TrFileLen == Cfg.filelen
 TrTimeout == Cfg.timeout
 TrFailFast == Cfg.failfast
+TrCopies == Cfg.copies
+TrPad == Cfg.pad
+TrConcat == Cfg.concat
 
 VARIABLE l
 tvars == <<vars, l>>
@@ -69,12 +72,12 @@ TRWTimeout == IsEvent("RWTimeout") /\ RWTimeout
 TStop == IsEvent("Stop") /\ StopStep /\ m.loopI < m.nInit /\ Ev.w = m.loopI + 1
 TStopDone == IsEvent("StopDone") /\ StopStep /\ m.loopI >= m.nInit
 TCreate == IsEvent("Create") /\ TiCreate /\ Ev.w = m.nInit + 1
-TTiSetup == IsEvent("TiGet") /\ TiSetup /\ Ev.w = m.thr /\ Blocks[m.blk].insz = Ev.a /\ Blocks[m.blk].outsz = Ev.b
+TTiSetup == IsEvent("TiGet") /\ TiSetup /\ Ev.w = m.thr /\ GB(m.blk).insz = Ev.a /\ GB(m.blk).outsz = Ev.b
 TTiStart == IsEvent("TiStart") /\ TiStart /\ Ev.w = m.thr /\ Ev.nsig >= 1
 TTiPartial == /\ IsEvent("TiPartial") /\ TiPartial
               /\ EnabledSet = {w \in W : \E i \in 1..Len(Ev.en) : Ev.en[i] = w}
               /\ (EnabledSet # {} => Ev.nsig >= 1)
-TCopy == IsEvent("Copy") /\ Copy /\ Ev.w = m.thr /\ Ev.a = Min(m.inAvail, Blocks[m.blk].insz - t[m.thr].inFilled)
+TCopy == IsEvent("Copy") /\ Copy /\ Ev.w = m.thr /\ Ev.a = Min(m.inAvail, GB(m.blk).insz - t[m.thr].inFilled)
 TPublish == IsEvent("Publish") /\ Publish /\ Ev.w = m.thr /\ t'[m.thr].inFilled = Ev.a /\ Ev.nsig >= 1
 TEndSignal == IsEvent("EndSignal") /\ EndSignal /\ m.loopI < m.nInit /\ Ev.w = m.loopI + 1 /\ Ev.nsig >= 1
 TEndJoin == IsEvent("EndJoin") /\ EndJoin /\ m.loopI < m.nInit /\ Ev.w = m.loopI + 1
@@ -95,7 +98,7 @@ TWDecode ==
     /\ IsEvent("WDecode")
     /\ LET w == Ev.w
            r == [ip |-> Ev.b, op |-> Ev.c, ret |-> IF Ev.a = 0 THEN "OK" ELSE IF Ev.a = 1 THEN "END" ELSE "ERR"]
-           B == Blocks[t[w].blk]
+           B == GB(t[w].blk)
        IN /\ r.ip >= t[w].inPos /\ r.ip <= t[w].snapIn /\ r.ip - t[w].inPos <= Chunk
           /\ r.op >= t[w].outPos /\ r.op <= B.outsz
           /\ (r.ret = "END" => r.ip = B.insz /\ r.op = B.outsz)
@@ -120,12 +123,12 @@ Logged == TReset \/ TCall \/ TRet \/ TRW \/ TRWWake \/ TRWTimeout \/ TStop \/ TS
 \* bound from that Ret event (the next log line).
 TDirectEnd ==
     /\ m.pc = "run" /\ m.seq = "DIRECTRUN"
-    /\ DirectRunTo([ip |-> Blocks[m.blk].insz, op |-> Blocks[m.blk].outsz, ret |-> "END"])
+    /\ DirectRunTo([ip |-> GB(m.blk).insz, op |-> GB(m.blk).outsz, ret |-> "END"])
 
 TDirectPartial ==
     /\ m.pc = "run" /\ m.seq = "DIRECTRUN"
     /\ l <= Len(TraceLog) /\ Ev.e = "Ret"
-    /\ LET B == Blocks[m.blk]
+    /\ LET B == GB(m.blk)
            ip == m.dIn + (Ev.b - (m.given - m.inAvail))
            op == m.dOut + (Ev.c - m.delivered)
            err == IsErr(RetName(Ev.a))
